@@ -23,3 +23,4 @@ PROP = {'engine': 'stack',
  'technique': 'property-based testing (rapid): generated behaviours and timings, history invariant with sequence numbers and one-sided time bounds, '
               'independent sanitiser specification'}
 PROP['rule'] += ' Round-4 addition: runtime kinds slowinit (still initialising for 1.3-1.8 s when the restore comes) and busy (working on an invocation for that long): the restore returns success within 1 s (the runtime never entered the restore poll) and the invocation in progress completes normally.'
+PROP['rule'] += " Round-5 addition: in half of the cases the function's own configuration (customer environment) names AWS_CONTAINER_AUTHORIZATION_TOKEN and/or AWS_CONTAINER_CREDENTIALS_FULL_URI: the runtime's environment must still carry the per-instance token and this instance's endpoint, and the fetches with the token found there are served."
